@@ -58,4 +58,8 @@ def check(c):
         p = S.make(fam, dict(initialize=sc['idx'][:2], n_to_select=n)); S.fit(p, fam, X, y)
         expect(np.asarray(p.selected_idx_).tolist() == sc['idx'], sig('relational[C08]:initialising-with-the-selected-prefix-reproduces-the-cold-selection'))
         expect(np.allclose(np.take(p.X_selected_, np.arange(n), axis=(1 if fam[1] == 'feature' else 0)), sc['Xsel']), sig('relational[C08]:initialising-with-the-selected-prefix-reproduces-the-stored-data'))
+        sp = state(p, fam)
+        for a in ('hausdorff_', 'hausdorff_at_select_', 'norms_'):
+            expect(a in sp and np.allclose(sp[a], sc[a], rtol=1e-9, atol=1e-12, equal_nan=True), sig(f'relational[C08]:initialising-with-the-selected-prefix-reproduces-the-cold-state:{a}'),
+                   f"prefix {sc['idx'][:2]}: {sp.get(a)} vs cold {sc[a]}")
     return []
